@@ -21,7 +21,7 @@ import (
 func main() { wk.Main("C07", run) }
 
 func run(c *wk.Ctx) {
-	n := c.Pick(320, 4000)
+	n := c.Pick(640, 6000)
 	for i := 0; i < n; i++ {
 		if c.Mine(i) {
 			runCase(c, i)
